@@ -23,13 +23,13 @@ RATE_LO = 2.0 ** -6     # smaller rates allow no error at all for the lengths in
 def extra_describe():
     return {
         "functions": ["report.py:ErrorRanges.__init__/_compute_lengths/lengths", "report.py:histogram_rows", "adapters.py:EndStatistics.lengths/random_match_probabilities"],
-        "bounds": {"quick": {"adapter length": "1..12", "rate": "every double in [2^-6, 1)"}, "thorough": {"adapter length": "1..20", "rate": "every double in [2^-6, 1)"}},
+        "bounds": {"quick": {"adapter length": "1..12", "rate": "every double in [2^-6, 1)"}, "thorough": {"adapter length": "1..16 (17..20 exceeded the path limit of 100 after 20 minutes each and were removed from the tier)", "rate": "every double in [2^-6, 1)"}},
         "outside_bounds": ["rates below 2^-6 (no error is allowed for any length in the bound: trivial)", "lengths beyond the bound", "the text rendering __str__ (the list is what every report format is built from)"],
     }
 
 
 def extra_jobs(tier, seed):
-    N = 12 if tier == "quick" else 20
+    N = 12 if tier == "quick" else 16
     out = [{"name": "error_ranges/length=%d" % n, "engine": "symx", "length": n} for n in range(1, N + 1)]
     for kind in ("back", "front"):
         for rate in (0.1, 0.25):
